@@ -49,6 +49,9 @@ func runC19(c *Ctx) {
 	}
 	if d := c.need("default"); d != nil {
 		c19R1Engine(c, d)
+		// the tuner parses every training line into one re-used Board through ParseFEN: nothing of the
+		// previous line may survive, or the tuner evaluates positions the engine never sees
+		parseFENResetRule(c, d, "C19.R7")
 	}
 	if q := c.need("tuner-client"); q != nil {
 		c19R5(c, q)
